@@ -219,7 +219,13 @@ class Pipeline(object):
             self._state = PipelineState.running
             self._producer.start()
             self._producer_task = asyncio.get_event_loop().create_task(self._run_producer_wrapper())
-            self._unpaused_event.set()
+
+            # Paused already (concurrency 0 set before processing started):
+            # wait for the concurrency to be raised instead of spinning.
+            if self._concurrency:
+                self._unpaused_event.set()
+            else:
+                self._unpaused_event.clear()
 
         while self._state == PipelineState.running:
             yield from self._process_one_worker()
